@@ -188,7 +188,7 @@ def ops(tier):
 
 
 # ---- direct oracle: evaluate every substituted path on real convert() output -------------------------------
-CELLS = ["relevant", "constraint", "calculation", "required", "label", "hint", "default", "choice_filter", "repeat_count", "read_only"]
+CELLS = ["relevant", "constraint", "calculation", "required", "label", "hint", "default", "choice_filter", "repeat_count", "read_only", "seed"]
 
 
 def layouts(rng, n):
@@ -239,7 +239,7 @@ def _check(args):
         cell, mode = "calculation", "indexed"
     if cell != "calculation" and mode == "indexed":
         mode = "plain"
-    if cell in ("choice_filter", "repeat_count") and mode != "plain":
+    if cell in ("choice_filter", "repeat_count", "seed") and mode != "plain":
         mode = "plain"
 
     def ref_text():
@@ -247,8 +247,8 @@ def _check(args):
             return "${last-saved#%s}" % tgt[0]
         return "${%s}" % tgt[0]
     expr = {"plain": f"{ref_text()} != 1", "two": f"{ref_text()} != 1 and ${{{tgt2[0]}}} != 2", "last_saved": f"{ref_text()} != 1"}.get(mode)
-    ctx_is_select = cell == "choice_filter"
-    external = ctx_is_select and rng.random() < 0.5
+    ctx_is_select = cell in ("choice_filter", "seed")
+    external = cell == "choice_filter" and rng.random() < 0.5
     indexed_args = None
     if mode == "indexed":
         chain = [rp[-1] for rp in idx[tgt[0]][0][1]][:3]            # names of the repeats around the target, outermost first
@@ -282,6 +282,8 @@ def _check(args):
             return {"repeat_count": ref_text()}
         if cell == "choice_filter":
             return {"choice_filter": f"cf = {ref_text()}"}
+        if cell == "seed":
+            return {"parameters": f"randomize=true, seed={ref_text()}"}
         return {cell: expr or f"{ref_text()} != 1"}
     rows = ro.tree_rows(tree, cells_for)
     form = {"survey": rows}
